@@ -274,4 +274,20 @@ theorem runDissem_fresh (B : HBlock) (env : Nat → Content) (cap : Nat) (hwf : 
       · intro h; exact h.2
       · intro h; exact ⟨hnf, h⟩
 
+theorem not_enough_nil (B : HBlock) (hn : 0 < B.n) : ¬ Enough B [] := by
+  intro h
+  have := h 0 hn
+  have h0 : distinctShreds [] 0 = 0 := cnt_dnone 0
+  rw [h0] at this
+  exact absurd this (by decide)
+
+theorem empty_delivered_iff (B : HBlock) (ss : List Shred) (hss : ∀ s ∈ ss, B.Honest s) :
+    Empty B (delivered ss) ↔ ss = [] := by
+  constructor
+  · intro he
+    cases hnil : decide (ss = []) with
+    | true => exact of_decide_eq_true hnil
+    | false => exact absurd he (not_empty_delivered B ss hss (of_decide_eq_false hnil))
+  · intro h; subst h; exact empty_dnone B
+
 end AgModel.Blockstore
